@@ -373,7 +373,8 @@ def compare(before, after, add, restart=True):
         d = []
         diff(before["sched"], after["sched"], "scheduler", d)
         if d:
-            keytype = all("<int>" in p or q == "<absent>" for p, q, _ in d)  # only integer keys that came back as strings
+            # only integer keys that came back as strings?
+            keytype = any("<int>" in p for p, _, _ in d) and all("<int>" in p or q == "<absent>" for p, q, _ in d)
             add("int_keys_lost:scheduler" if keytype else "scheduler", {"diffs": _dd(d)}, bucket=before["sched_cls"] or after["sched_cls"] or "Scheduler")
         return
     # ---- MCMC
